@@ -7,6 +7,7 @@ import Avfs.FS.File
     after pwrite(off, b) with b non-empty:  byte i = b[i-off] if off ≤ i < off+|b|,  the old byte if i < old length,
                                            0 inside the gap;  the length is max(old length, off+|b|)
     after ftruncate(n): byte i = the old byte if i < min(n, old length), 0 up to n;  length n
+  Sizes are limited by `maxFileSize` (the file size limit of the file system; POSIX reports EFBIG, MemFS EINVAL).
 
   `refRun` runs a history of operations issued on several descriptions of ONE file; `modelRun` runs the same history
   on the MemFS model (`fileStep`); `C02_history_refines` (Lemmas/FileSpec.lean) says they agree on every result and on
@@ -69,19 +70,22 @@ def refStep (f : Bytes) (d : FDesc) : IOp → Bytes × FDesc × Out
     if !d.wr then (f, d, .err .EBADF) else
     if b.isEmpty then (f, d, .ok (.num 0 [])) else
     let pos := if d.app then f.length else d.off.toNat            -- O_APPEND: the current end of the file
+    if pos + b.length > maxFileSize then (f, d, .err .EINVAL) else -- beyond the file size limit (EFBIG in POSIX)
     (refPwrite f pos b, { d with off := (pos + b.length : Nat) }, .ok (.num b.length []))
   | .pwrite b off =>
     if off < 0 then (f, d, .err .negOffset) else
     if !d.wr then (f, d, .err .EBADF) else
     if b.isEmpty then (f, d, .ok (.num 0 [])) else
+    if off.toNat + b.length > maxFileSize then (f, d, .err .EINVAL) else
     (refPwrite f off.toNat b, d, .ok (.num b.length []))
   | .lseek off whence =>
     let base : Option Int := if whence == 0 then some 0 else if whence == 1 then some d.off else if whence == 2 then some (f.length : Int) else none
+    -- a resulting offset beyond the largest file offset is EOVERFLOW in POSIX
     match base with
     | none => (f, d, .err .EINVAL)
-    | some b => if b + off < 0 then (f, d, .err .EINVAL) else (f, { d with off := b + off }, .ok (.num (b + off) []))
+    | some b => if b + off < 0 || b + off > 9223372036854775807 then (f, d, .err .EINVAL) else (f, { d with off := b + off }, .ok (.num (b + off) []))
   | .ftruncate size =>
-    if size < 0 then (f, d, .err .EINVAL) else
+    if size < 0 || size > maxFileSize then (f, d, .err .EINVAL) else
     if !d.wr then (f, d, .err .EINVAL) else
     (refTruncate f size.toNat, d, .ok .unit)
 
